@@ -6,11 +6,13 @@ import json
 import os
 import shutil
 
-OUT = "/tmp/mut2/out"
+import sys
+ROUND = int(sys.argv[1]) if len(sys.argv) > 1 else 2
+OUT = "/tmp/mut%d/out" % ROUND
 DST = "/verif/seeded"
-VER = json.load(open("/tmp/mut2/verify.json"))
+VER = json.load(open("/tmp/mut%d/verify.json" % ROUND))
 
-INFO = json.load(open(os.path.join(DST, "round2_info.json")))
+INFO = json.load(open(os.path.join(DST, "round%d_info.json" % ROUND)))
 # checks expected to report each change (own property first); verified by tools/catalogue.py
 ALSO = {
     "C01-m1": ["C08"], "C01-m2": ["C08"], "C02-m1": ["C03"], "C02-m2": ["C03"], "C03-m1": ["C07"], "C03-m2": ["C04"],
@@ -18,7 +20,11 @@ ALSO = {
     "C10-m1": ["C03", "C07"], "C10-m2": ["C09"], "C11-m1": ["C16"], "C15-m2": ["C08", "C18"], "C16-m1": ["C11"],
     "C18-m2": ["C08"], "C20-m2": ["C07"],
 }
-OWN_OVERRIDE = {"C16-m2": ["C04"]}
+OWN_OVERRIDE = {}
+if ROUND == 2:
+    ALSO["C16-m2"] = ["C04"]
+else:
+    ALSO = {"C06-m1": ["C12"], "C08-m2": ["C16", "C04"], "C16-m2": ["C08", "C04"], "C10-m1": ["C14"], "C11-m1": ["C16"], "C16-m1": ["C11"], "C07-m2": ["C20"], "C20-m2": ["C07"]}
 
 rows = []
 for key in sorted(INFO):
@@ -27,7 +33,7 @@ for key in sorted(INFO):
     if not v or not v.get("confirmed"):
         print("skip (not confirmed):", key)
         continue
-    name = "%s-r2-m%s" % (prop, n)
+    name = "%s-r%d-m%s" % (prop, ROUND, n)
     d = os.path.join(DST, name)
     os.makedirs(d, exist_ok=True)
     src = os.path.join(OUT, prop, "mutant%s.diff" % n)
@@ -42,7 +48,7 @@ for key in sorted(INFO):
         "property": prop,
         "what": what,
         "needs_to_manifest": needs,
-        "origin": "independent sub-agent (second round: asked for less central code sites), given only the property text and a scratch worktree",
+        "origin": "independent sub-agent (round %d), given only the property text and a scratch worktree" % ROUND,
         "confirmed_in_scratch_worktree": {
             "demo_cmd": v["demo_cmd"],
             "demo_passes_on_unchanged_tree": v["demo_on_unchanged_tree_passes"],
@@ -59,12 +65,21 @@ for key in sorted(INFO):
 
 readme = os.path.join(DST, "README.md")
 text = open(readme).read()
-marker = "\n## Round 2\n"
+marker = "\n## Round %d\n" % ROUND
 if marker in text:
     text = text[:text.index(marker)]
-text += marker + "\nSub-agents were asked for *different, less central* code sites than in round 1.\n\n| id | property | change | needs | reported by (quick) |\n|---|---|---|---|---|\n"
+later = ""
+if marker in open(readme).read():
+    rest = open(readme).read().split(marker, 1)[1]
+    if "\n## Round" in rest:
+        later = "\n## Round" + rest.split("\n## Round", 1)[1]
+intro = {2: "Sub-agents were asked for *different, less central* code sites than in round 1.",
+         3: "Sub-agents were asked for a third class of change: memory orderings, off-by-one errors in masks and counters, resource lifecycle, state surviving across steps / clones / simulations, rare API combinations, the worker-thread protocol."}[ROUND]
+text += marker + "\n" + intro + "\n\n| id | property | change | needs | reported by (quick) |\n|---|---|---|---|---|\n"
 for r in rows:
     text += "| %s | %s | %s | %s | %s |\n" % r
-text += "| revert-D6-C11-process-after-timeout | C11 | reverse of fix abbe7ca | process_event/process_query/process after a Timeout on the single-threaded executor | C11 |\n"
-open(readme, "w").write(text)
+if ROUND == 2:
+    text += "| revert-D6-C11-process-after-timeout | C11 | reverse of fix abbe7ca | process_event/process_query/process after a Timeout on the single-threaded executor | C11 |\n"
+    text += "| revert-D7-C04-64-workers | C04 | reverse of fix 6bd1e08 | multi-threaded executor with 64 worker threads in a build with overflow checks | C04 |\n"
+open(readme, "w").write(text + later)
 print("packaged", len(rows))
